@@ -103,7 +103,7 @@ func run(raw json.RawMessage) (common.Case, error) {
 		switch s.Fail {
 		case "timeout":
 			if s.FailAt <= len(s.Frames) {
-				timeout = 150 * time.Millisecond
+				timeout = 400 * time.Millisecond
 				failing = append(failing, s.Name)
 			}
 		case "recv":
@@ -286,6 +286,6 @@ func gen(r *rand.Rand, tier string, n int) []any {
 }
 
 func main() {
-	common.Main(common.Prop{ID: "C06", Facts: facts, Gen: gen, Run: run, QuickN: 500, ThoroughN: 8000,
+	common.Main(common.Prop{ID: "C06", Facts: facts, Gen: gen, Run: run, QuickN: 500, ThoroughN: 4000,
 		Preamble: "Open Scope Z_scope.\n"})
 }
